@@ -323,6 +323,8 @@ def own_root_count(spec, Jc):
     # (A lam + B) v = 0   <=>   -B v = lam A v
     w = sla.eig(-B, A, right=False, homogeneous_eigvals=True)
     al, be = np.abs(w[0]), np.abs(w[1])
+    if not (np.all(np.isfinite(al)) and np.all(np.isfinite(be))) or np.any((al == 0) & (be == 0)):
+        return sum(hi), -1, 0.0           # singular pencil: neither accepted as determinate nor used as a counterexample
     unstable = 0
     dist = np.inf
     for a_, b_ in zip(al, be):
